@@ -201,7 +201,7 @@ def make_spec(tier, params):
 def main(tier, seed):
     from .. import runner
     return runner.run_history(
-        __name__, "C18", tier, seed, {"quick": 3, "thorough": 4}[tier],
+        __name__, "C18", tier, seed, {"quick": 4, "thorough": 5}[tier],
         rule="BFS over record-adding histories (factories in every spelling, new_record, add_record, update) on a "
              "document and a bundle; on every state the lookup oracle runs on the document, its bundles and on "
              "every container derived by constructor/unified/flattened/update/add_bundle/JSON/XML reload "
